@@ -1,0 +1,16 @@
+//go:build verif
+
+// Contracts for package ws (comment-only; read by /verif/govc).
+
+package ws
+
+//@ struct wsPipe
+//@   lock Mutex level 60
+//@   guarded_by Mutex: open
+//@   immutable: ws proto addr iswss dtype
+//@
+//@ struct listener
+//@   lock lock level 50
+//@   guarded_by lock: pending running closed
+//@   cond cv uses lock
+//@   immutable: addr proto iswss
